@@ -227,16 +227,19 @@ Record == hist' = Append(hist, [l |-> last', o |-> Obs'])
 Options == [chi_max : ChiMaxOpts, chi_min : ChiMinOpts, degeneracy_tol : DegOpts, svd_min : SvdOpts,
             trunc_cut : CutOpts, mode : Modes]
 
+\* a behaviour ends with the last accumulation (MaxAcc = 0: single operations only)
+MayStart == phase = "build" /\ (MaxAcc = 0 \/ nacc < MaxAcc)
+
 \* grow the spectrum by one value (not an operation of the implementation: not recorded)
 Extend ==
-    /\ phase = "build" /\ Len(S) < MaxLen
+    /\ MayStart /\ Len(S) < MaxLen
     /\ \E v \in Vals : /\ (SortedOnly /\ S # <<>>) => v >= S[Len(S)]
                        /\ S' = Append(S, v)
     /\ UNCHANGED <<phase, last, acc, nacc, hist>>
 
 \* mask, norm_new, err = truncate(S, options)
 Truncate ==
-    /\ phase = "build" /\ Len(S) >= 1
+    /\ MayStart /\ Len(S) >= 1
     /\ \E o \in Options :
           /\ o.mode = "rel" => SumSq(S) > 0
           /\ last' = [op |-> "truncate", S |-> S, opt |-> o, res |-> TruncResult(S, o)]
@@ -246,7 +249,7 @@ Truncate ==
 
 \* err = TruncationError.from_S(S_discarded, norm_old)
 FromS ==
-    /\ phase = "build" /\ S = <<>>
+    /\ MayStart /\ S = <<>>
     /\ \E x \in AlgVals, y \in AlgVals, b \in {None} \cup {<<z>> : z \in AlgVals \ {0}} :
           last' = [op |-> "from_S", sd |-> <<x, y>>, norm_old |-> b, res |-> ErrFromS(<<x, y>>, b)]
     /\ phase' = "pending"
@@ -255,7 +258,7 @@ FromS ==
 
 \* err = TruncationError.from_norm(norm_new, norm_old)
 FromNorm ==
-    /\ phase = "build" /\ S = <<>>
+    /\ MayStart /\ S = <<>>
     /\ \E x \in AlgVals, y \in AlgVals \ {0} :
           /\ x <= y
           /\ last' = [op |-> "from_norm", norm_new |-> x, norm_old |-> y, res |-> ErrFromNorm(x, y)]
